@@ -169,15 +169,13 @@ func (s *sim) check() { agreement(s.w, s.nodes, s.replay) }
 func (s *sim) state() string {
 	var sb strings.Builder
 	for i, nd := range s.nodes {
-		nd.enter()
-		d := nd.dump()
-		nd.leave()
+		d := nd.h.VerifC08Dump()
 		var ks []string
 		for b := range nd.known {
 			ks = append(ks, b.name)
 		}
 		sort.Strings(ks)
-		fmt.Fprintf(&sb, "%d|%d|%s|%s|%d/%s|%s;", i, s.groups[i], nd.best.name, s.w.showStatus(d), nd.maxLib.no, nameOf(nd.maxLib.b), strings.Join(ks, ","))
+		fmt.Fprintf(&sb, "%d|%s|%s|%d/%s|%d|%s;", i, nd.best.name, s.w.showStatus(d), nd.maxLib.no, nameOf(nd.maxLib.b), nd.lastNo, strings.Join(ks, ","))
 	}
 	return sb.String()
 }
